@@ -257,6 +257,17 @@ def main(args):
     make_parser = importlib.import_module("compiler.front_end.make_parser")
     parser_mod = importlib.import_module("compiler.front_end.parser")
     frame_lemma(run)
+    # E1: Parser.mark_error, the step that attaches an error message (code) to the state/terminal an example fails in
+    from vlib import pool
+    n0 = len(run.obligations)
+    pool.run_targets(run, "contracts.lr1_table", ["mark_error"])
+    for ob in run.obligations[n0:]:
+        if ob.verdict == core.REFUTED and ob.replay is None:
+            ob.replay = {"reproduced": False, "note": "the ground comparison of the cached and the freshly generated tables below is the replay on real data"}
+    run.function("compiler.front_end.lr1.Parser.mark_error", "pyvc: the code is recorded for exactly the (state, terminal) - or the default of the state for ANY_TOKEN - in which the example fails at the stated token; "
+                 "a different existing code is never overwritten; unexpected outcomes record nothing; no other entry is written")
+    run.assume(*core.STANDING_ASSUMPTIONS["E1"])
+    run.assume("mark_error: Parser.parse is replaced by its outcome (success, or an error at a token in a state); tokens are compared by identity")
     t0 = time.time()
     fresh_m, fresh_e = make_parser.build_module_parser(), make_parser.build_expression_parser()
     gen_s = time.time() - t0
